@@ -5,9 +5,11 @@ import OV.Drivers.Loop
     `C17 prep <tok>*`                      tok = `n` (None) | integer            -> `R <tok>*`
     `C17 lookup <d> <N> <n>`               -> `none` | `<name> <since> <domain> dep=<b>`
     `C17 resolve <d> <N> <n>`              -> `none` | `<callname> <callsince> <calldomain>`
-    `C17 cell <d> <N> <n>`                 -> `ok=<b> mirrors=<b|->`
+    `C17 cell <d> <N> <n>`                 -> `ok=<b> mirrors=<b|-> stub=<b|-> agrees=<b>`
     `C17 eager <d> <N> <n> <nargs> <kw>*`  kw = `<name>=<value>`; args are `0 1 2 …` (a `n` in `<nargs>` list form
                                            `a:0,n,2` gives explicit arguments) -> `ERR` | `<key> | <inputs> | <attrs>`
+    `C17 hist <cmd>*`                      cmd = `N:<cls>:<d>:<v>` | `I:<i>:<n>` | `C:<i>:<n>` | `A:<i>:<n>` (one history from
+                                           an empty cache) -> `i<k>:<d>:<v>` | `s<name>,<since>,<dom>` | `s-` | `bT`/`bF` | `E` | `X`
     `C17 sep <fill> <allowKw> <allowArgs> P <name:isInput:variadic:required:dflt|->* A <arg>* K <k=v>*`
                                            -> `ERR:<kind>` | `ok | <inputs> | <k=v>*` -/
 namespace OV.Drivers.C17
@@ -94,8 +96,31 @@ def handleSep (f k a : String) (rest : List String) : String :=
         " ".intercalate (attrs.map (fun p => s!"{p.1}={p.2}"))
   | _, _, _ => "bad-op"
 
+def parseCmd (s : String) : Option Cmd :=
+  match s.splitOn ":" with
+  | ["N", c, d, v] => do pure (.new (← c.toNat?) (← d.toNat?) (← v.toNat?))
+  | ["I", i, n] => do pure (.getitem (← i.toNat?) (← n.toNat?))
+  | ["C", i, n] => do pure (.contains (← i.toNat?) (← n.toNat?))
+  | ["A", i, n] => do pure (.getattr (← i.toNat?) (← n.toNat?))
+  | _ => none
+
+def showKey : Option (Nat × Nat × Nat) → String
+  | none => "-"
+  | some k => s!"{k.1},{k.2.1},{k.2.2}"
+
+def showResp : Resp → String
+  | .inst i d v => s!"i{i}:{d}:{v}"
+  | .op k => "s" ++ showKey k
+  | .bool b => if b then "bT" else "bF"
+  | .attributeError => "E"
+  | .noSuchInstance => "X"
+
 def handle (args : List String) : String :=
   match args with
+  | "hist" :: cmds =>
+    match cmds.mapM parseCmd with
+    | some cs => " ".intercalate ((OV.C17.run schemas OState.empty cs).2.map showResp)
+    | none => "bad-op"
   | "sep" :: f :: k :: a :: rest => handleSep f k a rest
   | "prep" :: toks =>
     match toks.mapM parseTok with
@@ -123,7 +148,10 @@ def handle (args : List String) : String :=
       let mir := match l, r with
         | some s, some m => toString (mirrors m s)
         | _, _ => "-"
-      s!"ok={cellOk (ungeneratedDomains.contains d) l r} mirrors={mir}"
+      let stub := match r with
+        | some m => toString m.stub
+        | none => "-"
+      s!"ok={cellOk (ungeneratedDomains.contains d) (deprecatedLive.contains (d, N, n)) l r} mirrors={mir} stub={stub} agrees={agrees l r}"
     | _, _, _ => "bad-op"
   | "eager" :: d :: N :: n :: a :: kws =>
     match d.toNat?, N.toNat?, n.toNat?, parseArgs a, kws.mapM parseKw with
@@ -131,7 +159,7 @@ def handle (args : List String) : String :=
       match resolve classes d N n with
       | none => "ERR:nomethod"
       | some m =>
-        match eagerNode m xs kw with
+        match eagerCall m xs kw with
         | none => "ERR"
         | some node =>
           s!"{node.key.1} {node.key.2.1} {node.key.2.2} | " ++ " ".intercalate (node.inputs.map showOptNat)
